@@ -18,12 +18,13 @@ func TestVerifUniqReplay(t *testing.T) {
 	defer out.Close()
 	n, nontrivial, bad := 0, 0, 0
 	mk := func(tp []int) *Match {
-		return &Match{Name: fmt.Sprintf("k%d", tp[1]), Confidence: float64(tp[0]) / 2, Offset: tp[2], Extent: tp[3]}
+		// ranks 1 < 2 < 3; the upper two are closer than a thousandth: an order is an order
+		return &Match{Name: fmt.Sprintf("k%d", tp[1]), Confidence: []float64{0, 0.5, 0.9995, 1.0}[tp[0]], Offset: tp[2], Extent: tp[3]}
 	}
 	show := func(ms Matches) string {
 		s := ""
 		for _, m := range ms {
-			s += fmt.Sprintf("[%s %.1f %d+%d]", m.Name, m.Confidence, m.Offset, m.Extent)
+			s += fmt.Sprintf("[%s %.4f %d+%d]", m.Name, m.Confidence, m.Offset, m.Extent)
 		}
 		return s
 	}
